@@ -37,6 +37,13 @@ pub enum Op {
     SetAdmin { from: String, contract: String, admin: Option<String> },
     /// a fork probe of the given kind at this point of the history (the main run is unaffected)
     Probe { kind: String, arg: u64 },
+    /// the environment credits an account with coins (airdrop, staking reward, transfer from outside)
+    Mint {
+        to: String,
+        denom: String,
+        #[serde(with = "u128str")]
+        amount: u128,
+    },
 }
 
 impl Op {
@@ -65,6 +72,7 @@ impl Op {
             Op::Advance { dt_ns, dblocks } => format!("advance {}ns {}blk", dt_ns, dblocks),
             Op::SetAdmin { from, contract, admin } => format!("{from} set_admin {contract} -> {admin:?}"),
             Op::Probe { kind, arg } => format!("probe {kind}({arg})"),
+            Op::Mint { to, denom, amount } => format!("mint {amount}{denom} -> {to}"),
         }
     }
 }
@@ -129,6 +137,15 @@ impl Sim {
                 Err(e) => StepOut { ok: false, err: e, tx: None },
             },
             Op::Probe { .. } => StepOut { ok: true, err: String::new(), tx: None },
+            Op::Mint { to, denom, amount } => {
+                let have = self.chain.0.borrow().bank_get(to, denom);
+                if have.checked_add(*amount).is_some() {
+                    self.chain.mint(to, denom, *amount);
+                    StepOut { ok: true, err: String::new(), tx: None }
+                } else {
+                    StepOut { ok: false, err: "balance would not fit 128 bits".into(), tx: None }
+                }
+            }
         }
     }
 
